@@ -98,7 +98,7 @@ pub fn problem_cfg(rng: &mut Rng) -> g::Cfg {
     };
     match rng.below(10) {
         // symbol named like a 0-ary predicate (renamed `x__s` by rename_conflicting_symbols)
-        0 => c.symbols.extend(["p", "q"]),
+        0 => c.symbols.extend(["r", "r", "p"]),
         // names ending in _i/_g/_s or __s, leading underscores, preamble names
         1 => {
             c.symbols.extend(["n_i", "m_g", "a_s", "p__s", "_a", "__b"]);
